@@ -185,7 +185,7 @@ Theorem pow_base_exact T a r y : ty_ok T -> in_range T a -> in_range T y ->
 Proof.
   intros OkT Ha Hy B. pose proof W_val. pose proof HALF_val.
   pose proof (range_words T y OkT Hy) as Fy.
-  assert (Wy : - W < y < W) by (destruct (nsigned T); cbn in Fy; unfold sword, uword, MINS, MAXS in Fy; lia).
+  assert (Wy : - HALF <= y < W) by (destruct (nsigned T); cbn in Fy; unfold sword, uword, MINS, MAXS in Fy; lia).
   unfold m_pow_base. cbn [arith_spec].
   assert (EXP : 0 <= y -> leval (env2 a y) (L2 OExp (LInt a) vy) = Val (wrap (a ^ y))).
   { intros P. lstep. unfold enc. f_equal. apply w_exp_wrap. lia. }
@@ -213,4 +213,114 @@ Proof.
       * rewrite chk_rev_pow; [reflexivity|]. intros F. apply PB in F; lia.
       * rewrite chk_val_pow; [|apply PB; lia]. cbn [enc_out]. unfold enc. f_equal.
         rewrite <- (wrap_small y) at 1 by lia. apply w_exp_wrap. lia.
+Qed.
+
+Lemma base_bounds_parts T b lo hi : base_bounds_okb T b lo hi = true ->
+  in_range T lo /\ in_range T hi /\ (nsigned T = false -> lo = 0).
+Proof.
+  unfold base_bounds_okb. intros H.
+  destruct (in_rangeb T lo) eqn:E1; [|discriminate H]. destruct (in_rangeb T hi) eqn:E2; [|discriminate H].
+  cbn [andb] in H. apply in_rangeb_iff in E1. apply in_rangeb_iff in E2. split; [exact E1|]. split; [exact E2|].
+  intros S. rewrite S in H. apply andb_true_iff in H. destruct H as [_ H]. lia.
+Qed.
+
+Theorem pow_exp_exact T b lo hi x : ty_ok T -> in_range T x -> in_range T b -> 0 <= b ->
+  (if special_exp b then True else base_bounds_okb T b lo hi = true) ->
+  leval (env2 x b) (m_pow_exp T b lo hi) = enc_out (arith_spec T APow x b).
+Proof.
+  intros OkT Hx Hb Pb B. pose proof W_val. pose proof HALF_val.
+  pose proof (range_words T x OkT Hx) as Fx. pose proof (range_words T b OkT Hb) as Fb.
+  assert (Wb : 0 <= b < W) by (destruct (nsigned T); cbn in Fb; unfold sword, uword, MINS, MAXS in Fb; lia).
+  unfold m_pow_exp. cbn [arith_spec]. replace (b <? 0) with false by lia.
+  assert (EXP : leval (env2 x b) (L2 OExp vx (LInt b)) = Val (wrap (x ^ b))).
+  { lstep. unfold enc. f_equal. apply w_exp_wrap. exact Wb. }
+  destruct (special_exp b) eqn:SB.
+  - cbn [leval]. change (wrap 1 =? 0) with false. cbv iota. cbn [leval] in EXP. rewrite EXP.
+    rewrite chk_val_pow; [reflexivity|]. unfold special_exp in SB.
+    assert (C : b = 0 \/ b = 1) by lia. destruct C as [-> | ->]; [rewrite Z.pow_0_r | rewrite Z.pow_1_r; exact Hx].
+    pose proof (range_M T 1 OkT) as [HM R1]. apply R1. destruct (nsigned T); lia.
+  - pose proof (base_bounds_ok T b lo hi OkT B x Hx) as BB.
+    destruct (base_bounds_parts T b lo hi B) as [Rlo [Rhi L0]].
+    pose proof (range_words T lo OkT Rlo) as Flo. pose proof (range_words T hi OkT Rhi) as Fhi.
+    destruct (nsigned T) eqn:SG; cbn [fits256] in *.
+    + cbn [leval]. cbn [leval] in EXP. rewrite EXP.
+      lstep. unfold enc.
+      unfold w_slt, w_sgt. rewrite !ts_wrap by assumption.
+      rewrite !w_iszero_b2z, w_and_b2z, b2z_eq0. rewrite Z.gtb_ltb.
+      destruct (Z.ltb_spec x lo), (Z.ltb_spec hi x); cbn [negb andb]; cbv iota;
+        first [rewrite chk_rev_pow; [reflexivity | intros F; apply BB in F; lia]
+              | rewrite chk_val_pow; [reflexivity | apply BB; lia]].
+    + unfold uword in *. cbn [leval]. cbn [leval] in EXP. rewrite EXP.
+      lstep. unfold enc. unfold w_gt. rewrite (wrap_small x), (wrap_small hi) by lia.
+      rewrite w_iszero_b2z, b2z_eq0, negb_involutive, Z.gtb_ltb.
+      rewrite (L0 eq_refl) in *.
+      destruct (Z.ltb_spec hi x); cbv iota;
+        first [rewrite chk_rev_pow; [reflexivity | intros F; apply BB in F; lia]
+              | rewrite chk_val_pow; [reflexivity | apply BB; lia]].
+Qed.
+
+(* ---------------- Venom ---------------- *)
+Ltac pstep := unfold vrun; cbn [vsl vstep vval lookup venv2 String.eqb Ascii.eqb Bool.eqb ev1 ev2 ev3 px py fst snd].
+
+Theorem vpow_base_exact T a r y : ty_ok T -> in_range T a -> in_range T y ->
+  (if special_base a then True else pow_bound_okb T a r = true) ->
+  vrun (venv2 a y) (v_pow_base T a r) = enc_out (arith_spec T APow a y).
+Proof.
+  intros OkT Ha Hy B. pose proof W_val. pose proof HALF_val.
+  pose proof (range_words T y OkT Hy) as Fy.
+  assert (Wy : - HALF <= y < W) by (destruct (nsigned T); cbn in Fy; unfold sword, uword, MINS, MAXS in Fy; lia).
+  unfold v_pow_base. cbn [arith_spec].
+  destruct (special_base a) eqn:SB.
+  - destruct (nsigned T) eqn:SG; cbn [fits256] in Fy.
+    + pstep. unfold enc. unfold w_slt. rewrite (ts_wrap y Fy). change (to_signed (wrap 0)) with 0.
+      rewrite w_iszero_b2z, b2z_eq0, negb_involutive.
+      destruct (Z.ltb_spec y 0); [reflexivity|]. pstep.
+      rewrite chk_val_pow; [|apply special_pow_range; assumption].
+      cbn [enc_out]. unfold enc. f_equal. apply w_exp_wrap. lia.
+    + unfold uword in Fy. pstep. change (wrap 1 =? 0) with false. pstep. replace (y <? 0) with false by lia.
+      rewrite chk_val_pow; [|apply special_pow_range; try assumption; lia].
+      cbn [enc_out]. unfold enc. f_equal. apply w_exp_wrap. lia.
+  - pose proof (pow_bound_ok T a r OkT Ha B) as PB.
+    unfold pow_bound_okb in B. repeat (apply andb_true_iff in B; destruct B as [B ?]).
+    pstep. unfold enc. unfold w_gt. rewrite (wrap_small r) by lia.
+    rewrite w_iszero_b2z, b2z_eq0, negb_involutive. rewrite Z.gtb_ltb.
+    destruct (Z.ltb_spec y 0) as [N|P].
+    + rewrite wrap_neg by lia. replace (r <? y + W) with true by lia. reflexivity.
+    + rewrite !(wrap_small y) by lia.
+      destruct (Z.ltb_spec r y) as [G|G]; pstep.
+      * rewrite chk_rev_pow; [reflexivity|]. intros F. apply PB in F; lia.
+      * rewrite chk_val_pow; [|apply PB; lia]. cbn [enc_out]. unfold enc. f_equal.
+        rewrite <- (wrap_small y) at 1 by lia. apply w_exp_wrap. lia.
+Qed.
+
+Theorem vpow_exp_exact T b lo hi x : ty_ok T -> in_range T x -> in_range T b -> 0 <= b ->
+  (if special_exp b then True else base_bounds_okb T b lo hi = true) ->
+  vrun (venv2 x b) (v_pow_exp T b lo hi) = enc_out (arith_spec T APow x b).
+Proof.
+  intros OkT Hx Hb Pb B. pose proof W_val. pose proof HALF_val.
+  pose proof (range_words T x OkT Hx) as Fx. pose proof (range_words T b OkT Hb) as Fb.
+  assert (Wb : 0 <= b < W) by (destruct (nsigned T); cbn in Fb; unfold sword, uword, MINS, MAXS in Fb; lia).
+  unfold v_pow_exp. cbn [arith_spec]. replace (b <? 0) with false by lia.
+  assert (EXP : w_exp (wrap x) (wrap b) = wrap (x ^ b)) by (apply w_exp_wrap; exact Wb).
+  destruct (special_exp b) eqn:SB.
+  - pstep. change (wrap 1 =? 0) with false. pstep. unfold enc. rewrite EXP.
+    rewrite chk_val_pow; [reflexivity|]. unfold special_exp in SB.
+    assert (C : b = 0 \/ b = 1) by lia. destruct C as [-> | ->]; [rewrite Z.pow_0_r | rewrite Z.pow_1_r; exact Hx].
+    pose proof (range_M T 1 OkT) as [HM R1]. apply R1. destruct (nsigned T); lia.
+  - pose proof (base_bounds_ok T b lo hi OkT B x Hx) as BB.
+    destruct (base_bounds_parts T b lo hi B) as [Rlo [Rhi L0]].
+    pose proof (range_words T lo OkT Rlo) as Flo. pose proof (range_words T hi OkT Rhi) as Fhi.
+    destruct (nsigned T) eqn:SG; cbn [fits256] in *.
+    + pstep. unfold enc. unfold w_slt, w_sgt. rewrite !ts_wrap by assumption.
+      rewrite !w_iszero_b2z, w_and_b2z, b2z_eq0. rewrite Z.gtb_ltb.
+      destruct (Z.ltb_spec x lo), (Z.ltb_spec hi x); cbn [negb andb]; pstep; rewrite ?EXP;
+        first [rewrite chk_rev_pow; [reflexivity | intros F; apply BB in F; lia]
+              | rewrite chk_val_pow; [reflexivity | apply BB; lia]].
+    + unfold uword in *. pstep. unfold enc. unfold w_gt. rewrite !(wrap_small x), (wrap_small hi) by lia.
+      rewrite w_iszero_b2z, b2z_eq0, negb_involutive, Z.gtb_ltb.
+      rewrite (L0 eq_refl) in *.
+      destruct (Z.ltb_spec hi x); pstep;
+        first [rewrite chk_rev_pow; [reflexivity | intros F; apply BB in F; lia]
+              | rewrite chk_val_pow; [|apply BB; lia]; cbn [enc_out]; unfold enc; f_equal;
+                rewrite <- (wrap_small x) at 1 by lia; exact EXP].
 Qed.
